@@ -542,7 +542,13 @@ class Analysis:
                 if isinstance(x, ast.expr):
                     self.eval(x, env, ctx)
             return set()
-        if isinstance(e, (ast.JoinedStr, ast.FormattedValue)):
+        if isinstance(e, ast.JoinedStr):
+            for v in e.values:
+                if isinstance(v, ast.FormattedValue):
+                    self.eval(v.value, env, ctx)  # the formatted expression runs (a call in it may write)
+            return set()
+        if isinstance(e, ast.FormattedValue):
+            self.eval(e.value, env, ctx)
             return set()
         if isinstance(e, ast.Lambda):
             return set()
